@@ -83,6 +83,30 @@ def _label_rules(fn):
     return init, rules
 
 
+def consts_early(tree):
+    out = {}
+    for n in tree.body:
+        if isinstance(n, ast.Assign) and isinstance(n.targets[0], ast.Name) and isinstance(n.value, ast.Constant):
+            out[n.targets[0].id] = n.value.value
+    return out
+
+
+def piece_text_early(js, var, consts):
+    """f"{COMMENT} {line}" → the literal text put before the line ('' when the f-string is not <prefix><line>)."""
+    parts = js.values
+    if not parts or not isinstance(parts[-1], ast.FormattedValue) or not isinstance(parts[-1].value, ast.Name) or parts[-1].value.id != var:
+        return ''
+    out = ''
+    for p_ in parts[:-1]:
+        if isinstance(p_, ast.Constant):
+            out += str(p_.value)
+        elif isinstance(p_, ast.FormattedValue) and isinstance(p_.value, ast.Name) and p_.value.id in consts:
+            out += str(consts[p_.value.id])
+        else:
+            return ''
+    return out
+
+
 def generate(repo: Path):
     path = repo / 'navis' / 'io' / 'swc_io.py'
     src = path.read_text()
@@ -252,6 +276,25 @@ def generate(repo: Path):
     for n in ast.walk(wr):
         if isinstance(n, ast.If) and id(n) not in gen_nodes and ends_with_nl_test(n.test) and any(appends_nl(b) for b in n.body):
             terminated = True
+    # comment prefixing of a given header: on the str path `header` is rebuilt line by line (`header.split("\n")` … `"\n".join`) keeping a
+    # line that `startswith(COMMENT)` or is blank and prepending the comment character (and a blank) otherwise
+    commented, comment_prefix = False, ''
+    for n in ast.walk(wr):
+        if isinstance(n, ast.Assign) and id(n) not in gen_nodes and len(n.targets) == 1 and is_name(n.targets[0], 'header'):
+            v = n.value
+            if isinstance(v, ast.Call) and isinstance(v.func, ast.Attribute) and v.func.attr == 'join' and nl_const(v.func.value) and v.args \
+                    and isinstance(v.args[0], (ast.GeneratorExp, ast.ListComp)):
+                comp = v.args[0]
+                it = comp.generators[0].iter
+                splits_nl = isinstance(it, ast.Call) and isinstance(it.func, ast.Attribute) and it.func.attr == 'split' and is_name(it.func.value, 'header') \
+                    and len(it.args) == 1 and nl_const(it.args[0])
+                elt = comp.elt
+                if splits_nl and isinstance(elt, ast.IfExp):
+                    test_txt = ast.unparse(elt.test).replace(' ', '')
+                    keeps = 'startswith(COMMENT)' in test_txt and "strip('\\r')" in test_txt and ast.unparse(elt.body) == comp.generators[0].target.id
+                    if keeps and isinstance(elt.orelse, ast.JoinedStr):
+                        comment_prefix = piece_text_early(elt.orelse, comp.generators[0].target.id, consts_early(tree))
+                        commented = comment_prefix != ''
     # pieces of the generated header, in source order
 
     def piece_text(v):
@@ -405,6 +448,15 @@ def generate(repo: Path):
             for k, v in zip(n.keys, n.values):
                 if isinstance(k, ast.Constant):
                     col_kind[str(k.value)] = ast.unparse(v).strip('"\'')
+    # read_dataframe: the ID columns are widened when the requested integer width cannot hold them:
+    # `for wider in (int_, np.int32, np.int64): if info.min <= lo and hi <= info.max: break`
+    widening, widen_first_requested = [], False
+    for n in ast.walk(_func(tree, 'read_dataframe', 'SwcReader')):
+        if isinstance(n, ast.For) and isinstance(n.iter, (ast.Tuple, ast.List)) and any(isinstance(b, ast.If) and any(isinstance(c, ast.Break) for c in b.body) for b in n.body):
+            names = [ast.unparse(e).replace('np.', '').replace('numpy.', '') for e in n.iter.elts]
+            if all(x == 'int_' or x in ('int8', 'int16', 'int32', 'int64') for x in names) and names:
+                widen_first_requested = names[0] == 'int_'
+                widening = [int(x[3:]) for x in names if x != 'int_']
     # Writer: generated file name in a folder / zip
     ws = _func(btree, 'write_single', 'Writer')
     wz = _func(btree, 'write_zip', 'Writer')
@@ -502,6 +554,9 @@ def metaKeys : List String := {strs(meta_keys)}
 def metaPrefix : String := "{meta_prefix}"
 /-- `_write_swc`, a user supplied `header=` string: `if not header.endswith("\\n"): header += "\\n"` is present on the str path -/
 def headerTerminated : Bool := {'true' if terminated else 'false'}
+/-- `_write_swc`, a user supplied `header=` string is rebuilt line by line (`split("\\n")` / `"\\n".join`): a line that starts with the comment
+character or is blank (empty up to `\\r`) is kept, every other line gets this text prepended ("" = lines are written verbatim) -/
+def headerCommentPrefix : String := {lstr(comment_prefix) if commented else '""'}
 /-- the literal lines of the generated header in source order (f-string holes as ‹expr›), every piece ends with a line break,
 the Meta line is only written on the generated-header path -/
 def genericHeaderLines : List String := [{', '.join(lstr(x) for x in hdr_lines)}]
@@ -535,6 +590,10 @@ def metaSlice : Nat := {meta_slice}
 def keyColumns : List String := {strs(key_cols)}
 /-- `base.parse_precision`: precision → (integer dtype, float dtype); which of the two every column is cast to -/
 def precisionTable : List (Nat × String × String) := [{', '.join('(' + str(p_) + ', ' + lstr(i_) + ', ' + lstr(f_) + ')' for p_, i_, f_ in prec_rows)}]
+/-- `SwcReader.read_dataframe`: integer widths tried after the requested one for the ID columns (`[]` = IDs are cast to the requested width
+whatever their values) -/
+def idWidening : List Nat := [{', '.join(str(b_) for b_ in widening)}]
+def idWideningStartsWithRequested : Bool := {'true' if widen_first_requested else 'false'}
 def columnDtypeKind : List (String × String) := [{', '.join('(' + lstr(k) + ', ' + lstr(v) + ')' for k, v in col_kind.items())}]
 /-- `base.Writer`: generated file name in a folder, default pattern in a zip -/
 def folderFileNameAttr : String := {lstr(folder_name)}
@@ -547,6 +606,6 @@ end Navis.Gen.Swc
 '''
     meta = dict(source=str(path.relative_to(repo)), label_codes=codes, init=init, sort=sort_col, sort_kind=sort_kind, sort_key=sort_key_src, depth_rule=depth_rule, first_id=offset, missing_parent=missing,
                 columns=cols, node_columns=node_cols, reader_soma_label=soma_read, label_dtype=label_dtype, meta_keys=meta_keys,
-                header_terminated=terminated, generic_header_lines=hdr_lines, write_delimiter=write_delim, read_csv=csv_kw, meta_lookup=meta_lookup,
+                id_widening=widening, header_terminated=terminated, header_comment_prefix=comment_prefix, generic_header_lines=hdr_lines, write_delimiter=write_delim, read_csv=csv_kw, meta_lookup=meta_lookup,
                 meta_slice=meta_slice, key_columns=key_cols, precision_table=prec_rows, limit_rules=limit_rules, source_funnel=funnel, read_any_single_tests=dispatch, folder_file_name=folder_name, zip_pattern=zip_pattern)
     return 'Swc.lean', lean, meta
